@@ -43,7 +43,7 @@ REL = 1e-9
 HALF_PI = math.pi / 2
 
 # (variant name, class, setup kind, family, covariance tables supplied)
-VARIANTS_Q = [
+VARIANTS_B = [
     ("SSIdat", "SSIdat", "single", "ssi", False),
     ("SSIcov", "SSIcov", "single", "ssi", False),
     ("SSIcov+cov", "SSIcov", "single", "ssi", True),
@@ -52,12 +52,15 @@ VARIANTS_Q = [
     ("pLSCF", "pLSCF", "single", "pl", False),
     ("pLSCF_MS", "pLSCF_MS", "multi", "pl", False),
 ]
-VARIANTS_T = VARIANTS_Q + [("SSIdat+cov", "SSIdat", "single", "ssi", True)]
+# driver A, quick: SSIcov inherits run() from SSIdat, so its covariance-free pass is left to the thorough tier
+VARIANTS_Q = [v for v in VARIANTS_B if v[0] != "SSIcov"]
+VARIANTS_T = VARIANTS_B + [("SSIdat+cov", "SSIdat", "single", "ssi", True)]
 
 ITEMS = ["good", "negdamp", "highdamp", "complex", "mild", "noconj", "empty"]
 ITEMS_COV = ITEMS[:-1] + ["bigcov", "empty"]
 
-ORDMAX_A = 4
+ORDMAX_A = 4          # SSI: table of ORDMAX_A rows x ORDMAX_A+1 orders (the shape SSI_poles returns)
+ORDMAX_PL = 2         # pLSCF: ORDMAX_A rows x ORDMAX_PL orders (column = order index)
 
 
 # ---------------------------------------------------------------------------------------------
@@ -108,7 +111,7 @@ def catalogue(seed):
 def designed(cat, family, with_cov, names):
     """names: 4 catalogue keys -> (order A slot 0, order A slot 1, order B slot 0, order B slot 1)."""
     R = ORDMAX_A
-    C = ORDMAX_A + 1 if family == "ssi" else ORDMAX_A
+    C = ORDMAX_A + 1 if family == "ssi" else ORDMAX_PL
     cols = (C - 2, C - 1)
     Fn = np.full((R, C), np.nan)
     Xi = np.full((R, C), np.nan)
@@ -423,7 +426,7 @@ def make_alg(variant, hc, which):
         return cls(name="a", br=B_BR, ordmax=B_ORDMAX_SSI, hc=dict(hc), **kw)
     hcp = {k: hc[k] for k in ("conj", "xi_max", "mpc_lim", "mpd_lim")}
     if which == "A":
-        return cls(name="a", ordmax=ORDMAX_A, nxseg=8, hc=hcp)
+        return cls(name="a", ordmax=ORDMAX_PL, nxseg=8, hc=hcp)
     return cls(name="a", ordmax=B_ORDMAX_PL, nxseg=B_NXSEG, method_SD=B_PL_METHOD, hc=hcp)
 
 
@@ -565,7 +568,7 @@ def case_B(t, variant, vi, rec, g, hc, seed):
     t.outcomes[f"B:poles-in-unfiltered:{'some' if poles else 'none'}"] += 1
     n = judge(t, "B/" + vname, unf, poles, res, hc, case, ("B", vi, rec, g))
     t.extra["poles_judged"] = t.extra.get("poles_judged", 0) + n
-    if g == 5 and rec == 0:
+    if g == 5 and rec == 0 and vname in ("SSIcov+cov", "pLSCF"):
         keptn = int(np.sum(~np.isnan(res.Fn_poles)))
         t.sample({"driver": "B", "variant": vname, "record": rec, "hc": hc, "poles_unfiltered": len(poles), "poles_retained": keptn,
                   "table_shape": list(unf["Fn"].shape)})
@@ -573,7 +576,7 @@ def case_B(t, variant, vi, rec, g, hc, seed):
 
 def _work_B(item):
     vi, rec = item
-    variant = _CFG["variants"][vi]
+    variant = VARIANTS_B[vi]
     t = Tally()
     hcs = lattice_B(_CFG["tier"], variant, _CFG["seed"], rec)
     for g, hc in enumerate(hcs):
@@ -596,7 +599,7 @@ def explore(ctx):
         "driver_A": {
             "class_variants": [v[0] for v in variants],
             "catalogue": ITEMS, "catalogue_with_covariance": ITEMS_COV,
-            "table": f"{ORDMAX_A} rows x {ORDMAX_A + 1} orders (SSI) / {ORDMAX_A} x {ORDMAX_A} (pLSCF); two adjacent orders, "
+            "table": f"{ORDMAX_A} rows x {ORDMAX_A + 1} orders (SSI) / {ORDMAX_A} x {ORDMAX_PL} (pLSCF); the two highest orders, "
                      + ("slots: 2 pole pairs in the first order + 1 in the second (every assignment: 7^3 / 8^3 tables)" if not ctx.thorough
                         else "2 pole pairs in each of the two orders (every assignment: 7^4 / 8^4 tables)"),
             "tables": {"without_cov": len(tabs[False]), "with_cov": len(tabs[True])},
@@ -606,11 +609,11 @@ def explore(ctx):
         },
         "driver_B": {"records": nrec, "samples": B_N, "fs": FS_B, "ssi": {"br": B_BR, "ordmax": B_ORDMAX_SSI, "nb": B_NB},
                      "plscf": {"ordmax": B_ORDMAX_PL, "nxseg": B_NXSEG, "method_SD": B_PL_METHOD},
-                     "class_variants": [v[0] for v in VARIANTS_Q],
+                     "class_variants": [v[0] for v in VARIANTS_B],
                      "criteria_lattice": "same as driver A; cov_max in {geometric middle of the recorded covariances, 1e6}"},
     }
     # driver B first (long items), then A
-    items_B = [(vi, r) for r in range(nrec) for vi in range(len(VARIANTS_Q))]
+    items_B = [(vi, r) for r in range(nrec) for vi in range(len(VARIANTS_B))]
     ctx.pmap(_work_B, items_B, chunksize=1)
     items_A = []
     chunk = 8
@@ -622,7 +625,7 @@ def explore(ctx):
     for v in variants:
         for c in ("conj", "xi_low", "xi_high", "mpc", "mpd") + (("cov",) if v[4] else ()):
             req.append(f"only:{c}:{v[0]}")
-    for v in VARIANTS_Q:
+    for v in VARIANTS_B:
         for c in ("xi_high", "mpc", "mpd") + (("cov",) if v[4] else ()):
             req.append(f"only:{c}:B/{v[0]}")
     ctx.require("kept-as-required", "rejected-as-required", "B:poles-in-unfiltered:some", *req)
